@@ -151,6 +151,11 @@ func NewConnection(ctx context.Context, targetURL string, header http.Header, er
 					// no subsequent calls will succeed.
 					return
 				}
+				if clientMsg.Type == websocket.CloseMessage {
+					// The connection was closed by the client; stop writing (and, through the
+					// deferred cancel, tear the connection down).
+					return
+				}
 			}
 		}
 	}()
@@ -171,15 +176,21 @@ func NewConnection(ctx context.Context, targetURL string, header http.Header, er
 }
 
 // Close closes the websocket client connection.
+//
+// It is safe to call Close more than once and concurrently with SendClientMessage: the
+// channel of client messages is never closed (a concurrent sender would panic); instead
+// the writing routine stops, and cancels the connection, after it has sent the close message.
 func (conn *Connection) Close() {
 	verifhook.Gate("ws.close.enter")
-	conn.clientMessages <- &message{
+	select {
+	case conn.clientMessages <- &message{
 		websocket.CloseMessage,
 		websocket.FormatCloseMessage(websocket.CloseNormalClosure, ""),
+	}:
+	case <-conn.done():
+		// Already closed (by an earlier Close call or by the server).
 	}
 	verifhook.Gate("ws.close.sent")
-	// Closing the writing routine.
-	close(conn.clientMessages)
 }
 
 // SendClientMessage sends the given message to the websocket server.
@@ -227,8 +238,13 @@ func (conn *Connection) SendClientMessage(msg interface{}, injectionEnabled bool
 	case <-conn.done():
 		return fmt.Errorf("attempt to send a client message on a closed websocket connection")
 	default:
-		verifhook.Gate("ws.send.checked")
-		conn.clientMessages <- clientMessage
+	}
+	verifhook.Gate("ws.send.checked")
+	// Do not block forever if the connection goes away while the buffer is full.
+	select {
+	case <-conn.done():
+		return fmt.Errorf("attempt to send a client message on a closed websocket connection")
+	case conn.clientMessages <- clientMessage:
 	}
 	return nil
 }
